@@ -363,3 +363,24 @@ Proof.
   intro ops. unfold run_hist. generalize hinit hinv_init. induction ops as [|op r IH]; intros h I; simpl; [exact I|].
   apply IH. apply hinv_step. exact I.
 Qed.
+
+(* the decidable invariant the harness evaluates on real directories implies the one the theorem is about *)
+Lemma snapshot_presentb_sound : forall st l, snapshot_presentb st l = true -> snapshot_present st l.
+Proof.
+  intros st l H N. unfold snapshot_presentb in H. rewrite N in H. cbn [negb orb] in H.
+  destruct (lookup (resolve l) st) as [ob|] eqn:L; [|discriminate].
+  destruct (as_list (body ob)) as [ms|] eqn:B; [|discriminate].
+  exists ms. split; [exists ob; auto|]. rewrite forallb_forall in H.
+  intros m Hm Nm. specialize (H m Hm). rewrite Nm in H. cbn [negb orb] in H.
+  destruct (lookup (resolve m) st) as [ob2|] eqn:L2; [|discriminate].
+  destruct (as_manifest (body ob2)) as [es|] eqn:B2; [|discriminate].
+  exists es. split; [exists ob2; auto|]. rewrite forallb_forall in H.
+  intros e He. specialize (H e He). apply has_key_true in H. destruct H as [ob3 L3]. unfold present. congruence.
+Qed.
+
+Lemma hinvb_sound : forall snaps st cur, hinvb (map snd snaps) st = true -> hinv (mkH st snaps cur).
+Proof.
+  intros snaps st cur H. unfold hinvb in H. apply andb_true_iff in H. destruct H as [H1 H2]. split.
+  - apply wf_storeb_sound. exact H1.
+  - intros l Hl. apply snapshot_presentb_sound. rewrite forallb_forall in H2. apply H2. exact Hl.
+Qed.
